@@ -22,6 +22,10 @@ pub struct Chooser {
     pub max_points: usize,
     /// Set when the horizon was hit.
     pub horizon_hit: bool,
+    /// Lenient replay (differential re-runs): a recorded answer that does not fit the arity is
+    /// answered with the default and `diverged` is set, instead of being a machinery error.
+    pub lenient: bool,
+    pub diverged: bool,
 }
 
 impl Chooser {
@@ -32,7 +36,15 @@ impl Chooser {
             arity: Vec::with_capacity(64),
             max_points,
             horizon_hit: false,
+            lenient: false,
+            diverged: false,
         }
+    }
+
+    pub fn lenient(prefix: &[u16], max_points: usize) -> Self {
+        let mut c = Self::new(prefix, max_points);
+        c.lenient = true;
+        c
     }
 
     /// Choose one of `n >= 1` alternatives; alternative 0 is the default (cost 0).
@@ -48,11 +60,16 @@ impl Chooser {
         }
         let c = if i < self.prefix.len() {
             let c = self.prefix[i] as usize;
-            assert!(
-                c < n,
-                "MACHINERY: replay divergence at choice point {i}: recorded {c} but arity {n}"
-            );
-            c
+            if self.lenient && c >= n {
+                self.diverged = true;
+                0
+            } else {
+                assert!(
+                    c < n,
+                    "MACHINERY: replay divergence at choice point {i}: recorded {c} but arity {n}"
+                );
+                c
+            }
         } else {
             0
         };
